@@ -3,10 +3,11 @@ package main
 // call.go — calls: builtins, contracts of /repo functions, models of external functions, frames.
 
 import (
-	"os"
 	"fmt"
+	"go/ast"
 	"go/token"
 	"go/types"
+	"os"
 	"sort"
 	"strings"
 
@@ -27,6 +28,33 @@ func (c *FnCtx) call(ins ssa.Instruction, cc *ssa.CallCommon, res ssa.Value) {
 			r.GT = res.Type()
 		}
 		c.bind(res, r)
+	}
+	// results of calls through function values get spec names dyn<k>.<i> (k-th such call in source order,
+	// outside loops only): "the value the callback returned in this call"
+	if !cc.IsInvoke() && cc.StaticCallee() == nil && c.inl == nil {
+		if _, isB := cc.Value.(*ssa.Builtin); !isB {
+			c.dynCalls++
+			inLoop := false
+			for _, l := range c.loops {
+				if l != nil && l.Blocks[c.curBlk] {
+					inLoop = true
+				}
+			}
+			if !inLoop {
+				vals := r.Tup
+				if vals == nil && r.T != "" {
+					vals = []Val{r}
+				}
+				if sig, ok := types.Unalias(cc.Value.Type()).Underlying().(*types.Signature); ok {
+					for i, v := range vals {
+						if v.GT == nil && i < sig.Results().Len() {
+							v.GT = sig.Results().At(i).Type()
+						}
+						c.params[fmt.Sprintf("dyn%d.%d", c.dynCalls, i)] = v
+					}
+				}
+			}
+		}
 	}
 }
 
@@ -136,7 +164,7 @@ func (c *FnCtx) staticCall(callee *ssa.Function, bindings, args []Val, cc *ssa.C
 		if v, ok := c.tryInline(callee, bindings, args, resType, pos); ok {
 			return v
 		}
-		mi := c.E.modInfo(callee)
+		mi := c.E.modAtCall(c.F, cc, callee)
 		c.havocMod(mi.Exist, mi.Fresh, "call "+key)
 		return c.havocVal("r_"+mangle(callee.Name()), resType)
 	}
@@ -252,7 +280,7 @@ func (c *FnCtx) applyContract(callee *ssa.Function, spec *FuncSpec, bindings, ar
 		o.Props = cl.Props
 	}
 	// frame
-	mi := c.E.modInfo(callee)
+	mi := c.E.modAtCall(c.F, cc, callee)
 	if below := spec.belowParams(); len(below) > 0 && cc != nil {
 		c.havocBelow(callee, below, cc, mi, key)
 	} else if spec.HasAssigns {
@@ -293,6 +321,9 @@ func (c *FnCtx) applyContract(callee *ssa.Function, spec *FuncSpec, bindings, ar
 		rn["result"] = v
 	}
 	for _, cl := range spec.Ensures {
+		if mentionsDyn(cl.Expr) {
+			continue // speaks about a callback result inside the callee: nothing the caller can use
+		}
 		env := &specEnv{c: c, vars: rn, st: c.st, old: pre, bound: map[string]Val{}, callee: callee}
 		t, err := env.evalBool(cl.Expr)
 		if err != nil {
@@ -452,7 +483,7 @@ func (c *FnCtx) checkFrameAtReturn(r retInfo, ri int) {
 		if len(c.Spec.belowParams()) > 0 && isAnyTreeHeap(n) {
 			continue // frame inside the any-trees below the arguments is assumed (sep), not checked
 		}
-		if mi := c.E.rawModInfo(c.F); !mi.Exist["*"] && !mi.Exist[n] {
+		if mi := c.E.rawModInfo(c.F).closed(); !mi.Exist["*"] && !mi.Exist[n] {
 			continue // by the static MOD analysis only objects allocated during the call are written in this heap
 		}
 		var cond string
@@ -1085,10 +1116,14 @@ func instrIndex(in ssa.Instruction) int {
 
 // callsiteObligations: ghost assertions of the current function's contract at calls of the named callee
 func (c *FnCtx) callsiteObligations(callee *ssa.Function, bindings, args []Val, pos token.Pos) {
+	c.callsiteObligationsNamed(fnKey(callee), externName(callee), callee, bindings, args, pos)
+}
+
+// pseudo callees: "make(chan)" with arg0 = the buffer size
+func (c *FnCtx) callsiteObligationsNamed(key, ext string, callee *ssa.Function, bindings, args []Val, pos token.Pos) {
 	if c.Spec == nil || len(c.Spec.Callsites) == 0 || c.inl != nil {
 		return
 	}
-	key, ext := fnKey(callee), externName(callee)
 	for i, cs := range c.Spec.Callsites {
 		if cs.Callee != key && cs.Callee != ext {
 			continue
@@ -1104,11 +1139,14 @@ func (c *FnCtx) callsiteObligations(callee *ssa.Function, bindings, args []Val, 
 				names["caller_"+n] = v // the callee's parameter names shadow the caller's
 			}
 		}
-		for n, v := range c.calleeEnv(callee, bindings, args) {
-			names[n] = v
+		c.localNamesBefore(pos, names)
+		if callee != nil {
+			for n, v := range c.calleeEnv(callee, bindings, args) {
+				names[n] = v
+			}
 		}
 		for j, a := range args {
-			if a.GT == nil && j < len(callee.Params) {
+			if a.GT == nil && callee != nil && j < len(callee.Params) {
 				a.GT = callee.Params[j].Type()
 			}
 			names[fmt.Sprintf("arg%d", j)] = a
@@ -1121,5 +1159,60 @@ func (c *FnCtx) callsiteObligations(callee *ssa.Function, bindings, args []Val, 
 		}
 		o := c.oblige("callsite", t, fmt.Sprintf("%s/c%d", cs.Callee, i+1), pos)
 		o.Props = cs.Cl.Props
+	}
+}
+
+func mentionsDyn(x *SX) bool {
+	if x == nil {
+		return false
+	}
+	if x.Op == "ident" && len(x.Name) > 3 && strings.HasPrefix(x.Name, "dyn") && x.Name[3] >= '0' && x.Name[3] <= '9' {
+		return true
+	}
+	for _, a := range x.Args {
+		if mentionsDyn(a) {
+			return true
+		}
+	}
+	return false
+}
+
+// localNamesBefore: source-level local variables (from DebugRefs) as they are bound just before the
+// instruction at pos in the current block: definitions in strictly dominating blocks, then the ones
+// earlier in this block (later wins). Used by ghost assertions only.
+func (c *FnCtx) localNamesBefore(pos token.Pos, names map[string]Val) {
+	cur := c.F.Blocks[c.curBlk]
+	take := func(d *ssa.DebugRef) {
+		id, ok := d.Expr.(*ast.Ident)
+		if !ok || d.IsAddr {
+			return
+		}
+		if v, ok := c.vals[d.X]; ok {
+			if v.GT == nil {
+				v.GT = d.X.Type()
+			}
+			if _, isParam := c.params[id.Name]; isParam {
+				names["caller_"+id.Name] = c.params[id.Name]
+			}
+			names[id.Name] = v
+		}
+	}
+	for _, b := range c.order {
+		if b == cur || !b.Dominates(cur) {
+			continue
+		}
+		for _, ins := range b.Instrs {
+			if d, ok := ins.(*ssa.DebugRef); ok {
+				take(d)
+			}
+		}
+	}
+	for _, ins := range cur.Instrs {
+		if _, isDbg := ins.(*ssa.DebugRef); !isDbg && pos.IsValid() && ins.Pos() == pos {
+			break
+		}
+		if d, ok := ins.(*ssa.DebugRef); ok {
+			take(d)
+		}
 	}
 }
